@@ -76,3 +76,41 @@ Lemma send_cached_refuted :
   exists h : list (Z * Z), fw_receive h (send_cached h) <> map (fun vy => Some (snd vy)) h
                            /\ fw_receive h (send_cached h) = [Some 72%Z; None].
 Proof. exists [(10, 72); (8, 72)]%Z. split; [discriminate|reflexivity]. Qed.
+
+(* ------------------------------------------------------------------ stop handshake under stalling sends (wave 12) *)
+Lemma completions_le t k durs : forall c, In c (completions t k durs) -> (fst c <= t + thread_done durs)%nat.
+Proof.
+  revert t k. induction durs as [|d r IH]; intros t k c Hin.
+  - contradiction.
+  - change (thread_done (d :: r)) with (d + thread_done r)%nat.
+    change (completions t k (d :: r)) with ((t + d, k)%nat :: completions (t + d) (S k) r) in Hin.
+    destruct Hin as [<-|Hin].
+    + change (fst (t + d, k)%nat) with (t + d)%nat. lia.
+    + apply IH in Hin. lia.
+Qed.
+
+Lemma filter_all {X} (f : X -> bool) l : (forall x, In x l -> f x = true) -> filter f l = l /\ filter (fun x => negb (f x)) l = [].
+Proof.
+  induction l as [|x l IH]; intros H; [split; reflexivity|].
+  destruct IH as [I1 I2]; [intros y Hy; apply H; right; exact Hy|].
+  cbn. rewrite (H x (or_introl eq_refl)). cbn. rewrite I1, I2. split; reflexivity.
+Qed.
+
+(* unbounded join: for EVERY stall durations, when stop() returns the thread has returned, every pending setpoint went
+   through before the stop command, nothing follows the release *)
+Theorem join_unbounded_orders durs :
+  land_trace None durs = map (fun c => HsHover (snd c)) (completions O O durs) ++ [HsStop; HsRelease]
+  /\ thread_alive_after_stop None durs = false.
+Proof.
+  unfold land_trace, thread_alive_after_stop, join_returns. split; [|apply Nat.ltb_irrefl].
+  destruct (filter_all (fun c : nat * nat => Nat.leb (fst c) (thread_done durs)) (completions O O durs)) as [H1 H2].
+  { intros c Hc. apply Nat.leb_le. apply completions_le in Hc. exact Hc. }
+  rewrite H1, H2. cbn. reflexivity.
+Qed.
+
+(* a join bounded by two update periods (4 ticks of 0.1 s), the send in flight stalled for 0.6 s, one event queued behind it:
+   stop, release, and then two more hover setpoints from the thread that is still alive *)
+Theorem join_bounded_refuted :
+  land_trace (Some 4%nat) [6; 1]%nat = [HsStop; HsRelease; HsHover 0; HsHover 1]
+  /\ thread_alive_after_stop (Some 4%nat) [6; 1]%nat = true.
+Proof. split; reflexivity. Qed.
